@@ -57,6 +57,11 @@ shape("args_timezone", "src/core_codemods/timezone_aware_datetime.py", ["C16"], 
 shape("args_django_json", "src/core_codemods/django_json_response_type.py", ["C16"], "django_json_shape", "args_variant",
       "ArgsAsWritten", ["DjangoJsonResponseTypeTransformer.on_result_found"], doc="django-json-response-type on_result_found")
 
+shape("args_jwt_opts", "src/core_codemods/jwt_decode_verify.py", ["C16"], "jwt_opts_shape", "args_variant", "ArgsAsWritten",
+      ["JwtDecodeVerifyTransformer._replace_opts_dict", "JwtDecodeVerifyTransformer.replace_options_arg",
+       "JwtDecodeVerifyTransformer.replace_args", "JwtDecodeVerifyTransformer.on_result_found", "is_verify_keyword"],
+      doc="jwt-decode-verify: _replace_opts_dict (a **spread entry raises) / replace_options_arg / is_verify_keyword")
+
 # ---- NewArg tables ------------------------------------------------------------------------------------------------
 # files scanned (the anchors of C16); every NewArg(...) / replace_args(...) / add_arg_to_call(...) call in them must be understood
 _NEWARG_FILES = [
